@@ -426,4 +426,21 @@ def initGenesis (g : Genesis) : Res OrbState := do
   let o ← g.pausedCrossChains.foldlM initCcStep o
   g.pausedActions.foldlM (fun o a => asPanic (setPausedAction o a)) o
 
+/-! ### the genesis document, as the JSON codec hands it to the module -/
+
+/-- `types.GenesisState` after `cdc.UnmarshalJSON`: the four component sections are pointers; a section that the
+document omits or spells `null` stays nil (`nilSections` names them). -/
+structure GenesisDoc where
+  body : Genesis
+  nilSections : List String := []
+  deriving Repr, Inhabited
+
+/-- `AppModuleBasic.ValidateGenesis` → `GenesisState.Validate`: a nil section is refused. -/
+def validateGenesisDoc (d : GenesisDoc) : Res Unit :=
+  if !d.nilSections.isEmpty then .err "genesis:nil-section" else validateGenesis d.body
+
+/-- `AppModule.InitGenesis`: every component re-validates its section; a nil one panics. -/
+def initGenesisDoc (d : GenesisDoc) : Res OrbState :=
+  if !d.nilSections.isEmpty then .panic "InitGenesis:nil-section" else initGenesis d.body
+
 end Orbiter
